@@ -51,7 +51,7 @@ def gen_plan(rng, index, tier):
     bp["holes"] = [list(h) for h in holes]
     # one changer object for every conversion of the run (what a long-lived interface does), or a
     # fresh one per conversion
-    cfg = {"reactor": "gen", "blueprint": bp, "settings": {"nCycles": 1, "burnSteps": 1}, "actors": [], "reuseChanger": rng.random() < 0.5}
+    cfg = {"reactor": "gen", "blueprint": bp, "settings": {"nCycles": 1, "burnSteps": 1, "trackAssems": rng.random() < 0.5}, "actors": [], "reuseChanger": rng.random() < 0.5}
     steps = []
     uid = 0
     for _ in range(rng.randint(3, 14)):
@@ -59,7 +59,7 @@ def gen_plan(rng, index, tier):
         op = rng.choice(["convert", "convert", "restore", "restore", "addEdge", "removeEdge", "edit", "edit"])
         s = {"op": op, "u": uid}
         if op == "edit":
-            s["which"] = rng.choice(["power", "vVol", "vP0", "flux"])
+            s["which"] = rng.choice(["power", "vVol", "vP0", "flux", "mgFlux"])
             s["idx"] = rng.randrange(1000)
         steps.append(s)
     return {"config": cfg, "steps": steps}
@@ -119,6 +119,10 @@ def core_digest(core):
     out["lookups"] = {
         "byLocator": sorted((tuple(int(x) for x in loc.indices[:2]), id(a)) for loc, a in core.childrenByLocator.items()),
         "byName": sorted((nm, id(a)) for nm, a in core.assembliesByName.items() if a.parent is core),
+        # the complete tables, by name only: entries for objects that are gone must be gone too
+        "allAssemblyNames": sorted(nm for nm, a in core.assembliesByName.items() if a.parent is not None or nm in {x.getName() for x in core}),
+        "staleAssemblyNames": sorted(nm for nm, a in core.assembliesByName.items() if a.parent is None),
+        "staleBlockNames": sorted(nm for nm, b in core.blocksByName.items() if b.parent is None or b.parent.parent is None),
     }
     return out
 
@@ -143,9 +147,9 @@ def diff_digest(a, b):
             for k in sa:
                 if not close(sa[k], sb.get(k)):
                     yield (k, sa[k], sb.get(k))
-    for k in ("byLocator", "byName"):
+    for k in ("byLocator", "byName", "staleAssemblyNames", "staleBlockNames"):
         if a["lookups"][k] != b["lookups"][k]:
-            yield ("lookup-" + k, len(a["lookups"][k]), len(b["lookups"][k]))
+            yield ("lookup-" + k, str(a["lookups"][k])[:120], str(b["lookups"][k])[:120])
 
 
 def totals(core):
@@ -162,6 +166,13 @@ def totals(core):
             v = b.p[pn]
             if v is not None:
                 tot += float(v)
+        t["sum_" + pn] = tot
+    for pn in ("mgFlux", "lastMgFlux"):
+        tot = 0.0
+        for b in core.iterBlocks():
+            v = b.p[pn]
+            if v is not None and len(v):
+                tot += float(sum(v))
         t["sum_" + pn] = tot
     return t
 
@@ -214,12 +225,24 @@ class Runner:
             if st["which"] in ("power", "vVol"):
                 self.edge_op_since_edit = False
                 self.assigned.add(st["which"])
+            if st["which"] == "mgFlux":
+                self.assigned.add("lastMgFlux")
             if st["which"] == "power":
                 for j, b in enumerate(blks):
                     b.p.power = 1000.0 * st["u"] + j
             elif st["which"] == "vVol":
                 for j, b in enumerate(blks):
                     b.p.vVol = 10.0 * st["u"] + 0.25 * j
+            elif st["which"] == "mgFlux":
+                import numpy as np
+
+                self.assigned.add("mgFlux")
+                self.edge_op_since_edit = False
+                for j, b in enumerate(blks):
+                    arr = np.array([1.0 * st["u"] + j, 2.0, 0.5 * j])
+                    # the same array object on two parameters (what "last = current" bookkeeping does)
+                    b.p.mgFlux = arr
+                    b.p.lastMgFlux = arr
             elif st["which"] == "flux":
                 blks[st["idx"] % len(blks)].p.flux = 1e12 + st["u"]
             else:
